@@ -178,6 +178,15 @@ def fixed_programs():
               ("AddBundleDoc", lambda: [["NewDoc"], ["AddNs", ["d", "1"], "ex", "http://example.org/"],
                                         ["AddBundleDoc", "1", "0", ["S", "ex:attached"], ["ex"]]]),
               ("AddRecord", lambda: [["NewDoc"], ["AddRecord", ["d", "1"], ["r", ["d", "0"], "0"]]])]
+    # a bundle whose names resolve through its document (it declares nothing itself) and holds records to be merged, a
+    # document whose default namespace was adopted from a name: deriving must leave the declarations of both as they were
+    EXU = "http://example.org/"
+    for walker in (["Unified", "0"], ["Flattened", "0"], ["ToGraph", "0"], ["DocFromRecords", ["b", "0", "0"]]):
+        out.append([["NewDoc"], ["AddNs", ["d", "0"], "ex", EXU], ["NewBundle", "0", ["S", "ex:b"]],
+                    ["NewRecord", ["b", "0", "0"], "Entity", ["S", "ex:e"], [[["S", "ex:k"], ["qn", "ex", EXU, "v1"]]]],
+                    ["NewRecord", ["b", "0", "0"], "Entity", ["S", "ex:e"], [[["S", "ex:k2"], ["int", "2"]]]],
+                    ["NewRecord", ["d", "0"], "Agent", ["Q", "", D1, "ag"], []], ["NewRecord", ["d", "0"], "Agent", ["Q", "", D1, "ag"], [[["S", "ex:k"], ["int", "1"]]]],
+                    walker, walker])
     for src_explicit in (True, False):
         for name, mk in derivs:
             for first in ("result", "source", "source-bundle"):
